@@ -111,6 +111,22 @@ pub fn run(rng: &mut Rng, n: usize, out: &mut Out, which: &str) {
                     }
                     out.nontrivial(&format!("{} {}", bt, lim));
                 }
+                // twins: a position whose completed search answers with a castling move / an en-passant capture, then the SAME
+                // placement without that castling right / without the en-passant square, searched no deeper on the same
+                // searcher: whatever the table remembers of the first must not leak an illegal move into the second
+                if rng.chance(1, 2) {
+                    if let Some((p1, p2, d1)) = twin_case(&g, rng) {
+                        fresh_keys(&mut st, out, "s.new");
+                        let a1 = out.run(&mut st, &format!("s.go {} {} none", board_text(&p1), d1));
+                        let f1: Vec<&str> = a1.split_whitespace().collect();
+                        if f1.len() >= 2 { out.run(&mut st, &format!("s.judge {} legal {}", board_text(&p1), f1[1])); }
+                        for d2 in (1..=d1).rev() {
+                            let a2 = out.run(&mut st, &format!("s.go {} {} none", board_text(&p2), d2));
+                            let f2: Vec<&str> = a2.split_whitespace().collect();
+                            if f2.len() >= 2 { out.run(&mut st, &format!("s.judge {} legal {}", board_text(&p2), f2[1])); out.count("twin_positions_judged"); }
+                        }
+                    } else { out.count("twin_case_not_found"); }
+                }
                 // positions without legal moves must answer "no move"
                 if rng.chance(1, 3) {
                     for fen in ["7k/5Q2/6K1/8/8/8/8/8 b - - 0 1", "7k/6Q1/6K1/8/8/8/8/8 b - - 0 1"] {
@@ -133,6 +149,14 @@ pub fn run(rng: &mut Rng, n: usize, out: &mut Out, which: &str) {
                 for ci in 0..ncmds {
                     // start: startpos, corpus FEN, or a generated valid position; counters from the interesting set
                     let related = if which == "c04" && prev.is_some() && rng.chance(3, 5) { 1 + rng.below(4) } else { 0 };
+                    // a new game between two commands now and then (the next command may well repeat the previous game's moves)
+                    if which == "c04" && ci > 0 && rng.chance(1, 3) {
+                        out.run(&mut st, &format!("eng.pos {} | ucinewgame", board_text(&Board::default())));
+                        // the engine has drawn new hash keys: tell the model which
+                        let keys = zobrist_keys_text(st.uci.verif_searcher().verif_zobrist());
+                        out.run(&mut st, &format!("eng.keys {}", keys));
+                        out.count("ucinewgame_between_position_commands");
+                    }
                     let mut use_startpos = rng.chance(1, 3);
                     let mut start = if use_startpos { Board::default() } else if rng.chance(1, 2) { Board::new(*rng.pick(posgen::CORPUS)) } else { g.valid_position(rng, out) };
                     let mut forced_prefix: Vec<Move> = Vec::new();
@@ -250,6 +274,69 @@ pub fn run(rng: &mut Rng, n: usize, out: &mut Out, which: &str) {
             _ => panic!("unknown generator"),
         }
     }
+}
+
+/// (position whose fresh depth-d answer is a castle or an en-passant capture, its twin without that right / ep square, d)
+fn twin_case(g: &Gen, rng: &mut Rng) -> Option<(Board, Board, u8)> {
+    use crate::pieces::{Color, Piece};
+    for _ in 0..120 {
+        let white = rng.chance(1, 2);
+        let mut occ = [None::<(Color, Piece)>; 64];
+        let (me, opp) = if white { (Color::White, Color::Black) } else { (Color::Black, Color::White) };
+        let base = if white { 0usize } else { 56 };
+        let ep_family = rng.chance(1, 3);
+        let mut mask = 0u8;
+        let mut ep = None;
+        if !ep_family {
+            occ[base + 4] = Some((me, Piece::King));
+            let both = rng.chance(1, 2);
+            let qs = both || rng.chance(1, 2);
+            if qs { occ[base] = Some((me, Piece::Rook)); mask |= if white { 2 } else { 8 }; }
+            if both || !qs { occ[base + 7] = Some((me, Piece::Rook)); mask |= if white { 1 } else { 4 }; }
+            // the enemy king on the d/f files far away makes castling with check frequent
+            let okr = if white { 4 + rng.below(4) as usize } else { rng.below(4) as usize };
+            let anyf = rng.below(8) as usize; let okf = *rng.pick(&[3usize, 5, 2, 6, 3, 5, anyf]);
+            if occ[okr * 8 + okf].is_none() { occ[okr * 8 + okf] = Some((opp, Piece::King)); } else { continue; }
+        } else {
+            // my pawn on its 5th rank next to an enemy pawn that has just double-pushed
+            let r5 = if white { 4usize } else { 3 };
+            let f = rng.below(8) as usize;
+            let ef = if f == 0 { 1 } else if f == 7 { 6 } else if rng.chance(1, 2) { f - 1 } else { f + 1 };
+            occ[r5 * 8 + f] = Some((me, Piece::Pawn));
+            occ[r5 * 8 + ef] = Some((opp, Piece::Pawn));
+            ep = Some((if white { 5 * 8 + ef } else { 2 * 8 + ef }) as u8);
+            let k1 = rng.below(64) as usize; let k2 = rng.below(64) as usize;
+            if occ[k1].is_some() || occ[k2].is_some() || k1 == k2 { continue; }
+            if ((k1 / 8) as i32 - (k2 / 8) as i32).abs().max(((k1 % 8) as i32 - (k2 % 8) as i32).abs()) < 2 { continue; }
+            occ[k1] = Some((me, Piece::King)); occ[k2] = Some((opp, Piece::King));
+        }
+        for _ in 0..rng.below(4) {
+            let sq = 8 + rng.below(48) as usize;
+            if occ[sq].is_none() { occ[sq] = Some((if rng.chance(1, 2) { me } else { opp }, *rng.pick(&[Piece::Pawn, Piece::Pawn, Piece::Knight, Piece::Bishop]))); }
+        }
+        let mut pcs = [0u64; 6];
+        let (mut wbb, mut bbb) = (0u64, 0u64);
+        for sq in 0..64 { if let Some((c, p)) = occ[sq] { pcs[p.index()] |= 1 << sq; if c == Color::White { wbb |= 1 << sq } else { bbb |= 1 << sq } } }
+        let b = match board_from_raw(pcs, wbb, bbb, me, mask, ep, 0, 1) { Some(b) => b, None => continue };
+        if !crate::refchess::valid(&b) { continue; }
+        let ms = g.mg.generate_moves(&b);
+        if !ms.iter().any(|m| m.move_type == MoveType::Castle || m.move_type == MoveType::EnPassant) { continue; }
+        let d = 2 + rng.below(2) as u8;
+        if crate::csearch::nodes_capped(&b, d, 30000) >= 30000 { continue; }
+        let mut s = crate::search::Searcher::new();
+        let (_sc, mv) = s.find_best_move(&b, d, None);
+        let mv = match mv { Some(m) => m, None => continue };
+        let twin = match mv.move_type {
+            MoveType::Castle => {
+                let bit = if mv.to % 8 == 6 { if white { 1 } else { 4 } } else if white { 2 } else { 8 };
+                board_from_raw(pcs, wbb, bbb, me, mask & !bit, ep, 0, 1)
+            }
+            MoveType::EnPassant => board_from_raw(pcs, wbb, bbb, me, mask, None, 0, 1),
+            _ => None,
+        };
+        if let Some(t) = twin { if crate::refchess::valid(&t) { return Some((b, t, d)); } }
+    }
+    None
 }
 
 fn find_move(g: &Gen, b: &Board, from: u8, to: u8) -> Option<Move> {
